@@ -948,7 +948,15 @@ Proof.
       (apply (binv_upd_local _ _ _ _ _ Hinv Ht); [exact I| first [apply thr_cur_ended | eapply thr_cur_moved; [exact Hcur|exact Hcu]] |rewrite Hpc; reflexivity]).
   - (* PutCas *)
     destruct (bin_at (sh c) (bini k)) as [h|] eqn:Hb.
-    + shape Hcur. apply (binv_upd_local _ _ _ _ _ Hinv Ht); [exact I|eapply thr_cur_moved; [exact Hcur|exact Hcu]|rewrite Hpc; reflexivity].
+    + assert (Hh : h < length (heap (sh c))).
+      { destruct Hsh as (_ & _ & _ & Hbins). destruct (Hbins _ (bini_lt k)) as (l & Hok).
+        pose proof Hok as (Hs & _). rewrite Hb in Hs. destruct (pseg_next_some _ _ _ Hs) as (l' & ->).
+        eapply bin_ok_in; [exact Hok|left; reflexivity]. }
+      destruct no_repl; cbn [andb].
+      * destruct (N.eqb_spec (ckey (cell_at (sh c) h)) k) as [Hk|Hk]; shape Hcur.
+        -- apply (binv_upd_local _ _ _ _ _ Hinv Ht); [split; assumption|eapply thr_cur_moved; [exact Hcur|exact Hcu]|rewrite Hpc; reflexivity].
+        -- apply (binv_upd_local _ _ _ _ _ Hinv Ht); [exact Hh|eapply thr_cur_moved; [exact Hcur|exact Hcu]|rewrite Hpc; reflexivity].
+      * shape Hcur. apply (binv_upd_local _ _ _ _ _ Hinv Ht); [exact Hh|eapply thr_cur_moved; [exact Hcur|exact Hcu]|rewrite Hpc; reflexivity].
     + rewrite alloc_eq. cbv beta iota. change (sh (bump c)) with (sh c).
       destruct (cas_effect _ k v Hsh Hb) as (Hsh' & Hfr & Hlocks & _).
       shape Hcur. eapply (binv_upd_write _ _ _ _ _ _ _ Hinv Ht Hsh' Hfr Hlocks); [intros h Hh; congruence|exact I|apply thr_cur_ended|rewrite Hpc; reflexivity].
@@ -2075,8 +2083,12 @@ Proof.
       unfold trv. rewrite (Pk_miss _ _ HP); [reflexivity|unfold keyat; rewrite Hc; congruence|rewrite Hc; exact Hq].
   - (* PutCas *) subst o0.
     destruct (bin_at (sh c) (bini k')) as [h|] eqn:Hb.
-    + intros _; rewrite (with_sh_bump c). 
-      eapply LIN_goto_silent'; [exact HL|exact Ht|exact Hcur|exact Hnu|exact Hsh|exact Hrel0|reflexivity|intros _; destruct nr; exact I].
+    + destruct nr; cbn [andb];
+        [destruct (N.eqb_spec (ckey (cell_at (sh c) h)) k') as [Hk|Hk] | ];
+        intros _; rewrite (with_sh_bump c);
+        (eapply LIN_goto_silent'; [exact HL|exact Ht|exact Hcur|exact Hnu|exact Hsh|exact Hrel0|reflexivity|]);
+        cbn [op_key put_op pc_pend]; intros E; try exact I;
+        (exists (now c + 1); split; [lia|]; rewrite upd_pst_new; apply Pk_head; [exact Hsh|rewrite <- E; exact Hb]).
     + rewrite alloc_eq. cbv beta iota. change (sh (bump c)) with (sh c). intros Hsh'.
       rewrite sh_finish in Hsh'. pose proof (cas_effect2 _ k' v Hsh Hb) as Hkv. 
       eapply LIN_finish_direct'; [exact HL|exact Ht|exact Hcur|exact Hnu|exact Hsh'|exact (proj1 Hkv)|].
